@@ -17,6 +17,7 @@ import (
 	"runtime"
 	"runtime/debug"
 	"strconv"
+	"strings"
 	"sync"
 	"syscall"
 
@@ -137,11 +138,15 @@ type c20OpResult struct {
 	Status string `json:"s"` // ok | err | panic | ok-same | ok-diff
 	Err    string `json:"e,omitempty"`
 	EncLen int    `json:"el,omitempty"`
-	// snappy / lz4: the encoder's output (hex), for the Lean spec decoders
+	// snappy / lz4 / gzip: the encoder's output (hex), for the Lean spec decoders
 	Enc string `json:"x,omitempty"`
 	// lz4 grow loop (L2): cap of the dst handed to Decode, cap of the slice it returned
 	DstCap int `json:"dc,omitempty"`
 	OutCap int `json:"oc,omitempty"`
+	// lz4 Encode (L2): cap of the dst handed to Encode, cap of the slice it returned (+1, so
+	// that 0 means "not recorded")
+	EncDstCap int `json:"edc,omitempty"`
+	EncOutCap int `json:"eoc,omitempty"`
 }
 
 type c20Line struct {
@@ -187,8 +192,12 @@ func c20NewCodec(name string, level int) compress.Codec {
 	panic("unknown codec " + name)
 }
 
-// c20Dst builds a dirty destination buffer; n is the size the result will need.
-func c20Dst(kind string, n int, prev *[][]byte) []byte {
+// c20Dst builds a dirty destination buffer; n is the size the result will need (Decode: exact,
+// Encode: a generous hint), src the length of the source handed to the same call. The `src…`
+// kinds put the capacity around len(src), the `…bound…` kinds around the worst-case size of the
+// block formats (LZ4: n + n/255 + 16, Snappy: 32 + n + n/6): the region where "the buffer can
+// hold the input" and "the buffer can hold the output" differ.
+func c20Dst(kind string, n, src int, prev *[][]byte) []byte {
 	dirty := func(l, c int) []byte {
 		b := make([]byte, c)
 		for i := range b {
@@ -216,6 +225,29 @@ func c20Dst(kind string, n int, prev *[][]byte) []byte {
 		return dirty(0, n-1)
 	case "exactp1":
 		return dirty(n+1, n+1)
+	case "srccap":
+		return dirty(0, src)
+	case "srclen":
+		return dirty(src, src)
+	case "srcm1":
+		if src == 0 {
+			return dirty(0, 1)
+		}
+		return dirty(0, src-1)
+	case "srcp1":
+		return dirty(0, src+1)
+	case "srcp15":
+		return dirty(src/2, src+15)
+	case "srchalf":
+		return dirty(0, src/2+1)
+	case "lz4boundm1":
+		return dirty(0, src+src/255+15)
+	case "lz4bound":
+		return dirty(0, src+src/255+16)
+	case "snapboundm1":
+		return dirty(0, 31+src+src/6)
+	case "snapbound":
+		return dirty(1, 32+src+src/6)
 	case "large":
 		return dirty(0, 2*n+17)
 	case "largelen":
@@ -360,7 +392,7 @@ func (e *c20Exec) runOps(which []int) {
 		r := &e.res[i]
 		if op.K == "ext" {
 			src, _ := hex.DecodeString(op.Src)
-			ddst := c20Dst(op.DDst, len(x), &prev)
+			ddst := c20Dst(op.DDst, len(x), len(src), &prev)
 			got, err, pan := c20Safe(func() ([]byte, error) { return e.codec.Decode(ddst, src) })
 			switch {
 			case pan != "":
@@ -379,7 +411,18 @@ func (e *c20Exec) runOps(which []int) {
 		}
 		// ---- Encode
 		encHint := len(x) + len(x)/8 + 64
-		edst := c20Dst(op.EDst, encHint, &prev)
+		var edst []byte
+		if strings.HasPrefix(op.EDst, "out") {
+			// capacity around the size this very output needs: learn it with a probing call
+			// (one more call in the history of the codec value)
+			size := encHint
+			if probe, perr, ppan := c20Safe(func() ([]byte, error) { return e.codec.Encode(nil, x) }); perr == nil && ppan == "" {
+				size = len(probe)
+			}
+			edst = c20Dst(map[string]string{"outm1": "exactm1", "outcap": "exactcap", "outp1": "exactp1"}[op.EDst], size, len(x), &prev)
+		} else {
+			edst = c20Dst(op.EDst, encHint, len(x), &prev)
+		}
 		enc, err, pan := c20Safe(func() ([]byte, error) { return e.codec.Encode(edst, x) })
 		if pan != "" {
 			r.Status = "panic"
@@ -392,10 +435,11 @@ func (e *c20Exec) runOps(which []int) {
 			continue
 		}
 		r.EncLen = len(enc)
+		r.EncDstCap, r.EncOutCap = cap(edst)+1, cap(enc)+1
 		encCopy := append([]byte{}, enc...)
 		if op.K == "bad" {
 			bad := op.Bad.apply(enc)
-			ddst := c20Dst(op.DDst, len(x), &prev)
+			ddst := c20Dst(op.DDst, len(x), len(bad), &prev)
 			got, err, pan := c20Safe(func() ([]byte, error) { return e.codec.Decode(ddst, bad) })
 			switch {
 			case pan != "":
@@ -413,7 +457,7 @@ func (e *c20Exec) runOps(which []int) {
 			continue
 		}
 		// ---- Decode(Encode(x))
-		ddst := c20Dst(op.DDst, len(x), &prev)
+		ddst := c20Dst(op.DDst, len(x), len(enc), &prev)
 		r.DstCap = cap(ddst)
 		dec, err, pan := c20Safe(func() ([]byte, error) { return e.codec.Decode(ddst, enc) })
 		switch {
@@ -429,7 +473,7 @@ func (e *c20Exec) runOps(which []int) {
 		default:
 			r.Status = "ok"
 			r.OutCap = cap(dec)
-			if (e.sc.Codec == "snappy" || e.sc.Codec == "lz4") && len(enc) <= 70000 {
+			if (e.sc.Codec == "snappy" || e.sc.Codec == "lz4" || e.sc.Codec == "gzip") && len(enc) <= 70000 {
 				r.Enc = hex.EncodeToString(enc)
 			}
 		}
